@@ -284,7 +284,7 @@ def importsCase (fields : List String) : String :=
   | .err => "err"
   | .outOfFuel => "out-of-fuel"
 
-/-- `refs tasks=t0,t1 watch=t0 pipes=p0=s0/t:t0/-;s1/p:p1/s0+s2|p1=…` -/
+/-- `refs tasks=… watch=… pipes=<pipeline>=<stage>/<t:task or p:pipeline>/<deps joined by + or a dash>;…|…` -/
 def refsCase (fields : List String) : String :=
   let tasks := splitNonEmpty (kv fields "tasks") ","
   let watch := if kv fields "watch" = "-" then [] else splitNonEmpty (kv fields "watch") ","
